@@ -1139,8 +1139,9 @@ class Process(StateMachine, persistence.Savable, metaclass=ProcessStateMachineMe
             interrupt_exception = process_states.PauseInterruption(msg_text)
             self._set_interrupt_action_from_exception(interrupt_exception)
             self._pausing = self._interrupt_action
-            # Try to interrupt the state
-            self._state.interrupt(interrupt_exception)
+            # Try to interrupt the state (unless in the middle of a transition, then ``step`` runs the action after it)
+            if not self._transitioning:
+                self._state.interrupt(interrupt_exception)
             return cast(futures.CancellableAction, self._interrupt_action)
 
         msg = MessageBuilder.pause(msg_text)
@@ -1261,7 +1262,8 @@ class Process(StateMachine, persistence.Savable, metaclass=ProcessStateMachineMe
             interrupt_exception = process_states.KillInterruption(msg_text)
             self._set_interrupt_action_from_exception(interrupt_exception)
             self._killing = self._interrupt_action
-            self._state.interrupt(interrupt_exception)
+            if not self._transitioning:
+                self._state.interrupt(interrupt_exception)
             return cast(futures.CancellableAction, self._interrupt_action)
 
         msg = MessageBuilder.kill(msg_text)
@@ -1367,11 +1369,16 @@ class Process(StateMachine, persistence.Savable, metaclass=ProcessStateMachineMe
                 # scheduled yet: honour it now rather than transitioning with a cancelled future
                 self.kill('Killed by future being cancelled')
 
-            if self._interrupt_action:
-                self._interrupt_action.run(next_state)
+            action = self._interrupt_action
+            if action:
+                action.run(next_state)
             else:
                 # Everything nominal so transition to the next state
                 self.transition_to(next_state)
+
+            if self._interrupt_action is not action and self._interrupt_action and not self.has_terminated():
+                # A pause or kill was requested during the transition (e.g. by a listener): carry it out now
+                self._interrupt_action.run(None)
 
         finally:
             self._stepping = False
